@@ -373,6 +373,10 @@ pub enum Op {
     Doctor2,
     /// the public downgrade_to_shared() on the live handle (it upgrades again on the next mutation)
     Downgrade,
+    /// C17: two handles opened read-only on the closed memory contend for the writer role; each
+    /// step is (handle 0|1, action 0 = apply_ticket, 1 = downgrade_to_shared, 2 = put). A handle is a
+    /// writer from its first successful mutation until it downgrades. Runs last in a scenario.
+    RoContend { steps: Vec<(u8, u8)> },
 }
 
 impl Op {
@@ -416,6 +420,7 @@ impl Op {
             Op::LockProbe => "lock_probe",
             Op::Doctor2 => "doctor2",
             Op::Downgrade => "downgrade",
+            Op::RoContend { .. } => "ro_contend",
         }
     }
     pub fn is_mutation(&self) -> bool {
